@@ -52,7 +52,7 @@ func runC14(r *R) {
 		items = keep
 		r.Note("file-without-entries")
 	}
-	tagAlpha := []string{"a", "b", "c", "", "two words"}
+	tagAlpha := []string{"a", "b", "c", "", "two words", "A", "B"} // tags are compared exactly: "A" is not "a"
 	var reqs []*absReq
 	for _, it := range items {
 		if it.Req != nil {
